@@ -497,7 +497,8 @@ where
     E: nom::error::ParseError<&'a [u8]>,
     F: Fn(&'a [u8]) -> nom::IResult<&'a [u8], T, E>,
 {
-    items.reserve_exact(num_items as usize);
+    // num_items is untrusted: never reserve more elements than the input has bytes
+    items.reserve_exact((num_items as usize).min(input.len()));
     for _ in 0..num_items {
         let (rest, data) = parser(input)?;
         items.push(data);
